@@ -145,6 +145,7 @@ LOOP:
 			}
 			// Otherwise, wait for segment to be written to (or split).
 			waiting = true
+			crashPoint("reader:before-wait")
 			if !r.waitForData(ctx, r.seg) {
 				err = io.EOF
 				break
@@ -163,6 +164,7 @@ LOOP:
 		// If there are not enough segments to read, wait for new segment to be
 		// appended or the context to be canceled.
 		for nextSeg == nil {
+			crashPoint("reader:before-wait")
 			if !r.waitForData(ctx, r.seg) {
 				err = io.EOF
 				break LOOP
